@@ -309,30 +309,44 @@ func (r *c18Runner) explainLayout(blamed, pe parser.Expr, mode string, bt int64,
 		}
 		return r.ref.instant(e, bt)
 	}
-	// (5) a cursor that serves several series one after the other (instant-vector selector) reads, for every series but its
-	// first, neither the out-of-order file / out-of-order memtable rows nor - if the first series had no file in the time
-	// range - any file: the selector over several series is wrong, every series selected alone is right
-	if vs, ok := blamed.(*parser.VectorSelector); ok && bt != 0 && (r.layout == c18LayLate || r.layout == c18LayLateMem) {
+	// (5) a cursor that serves several series one after the other (instant-vector selector, or an aggregation whose group
+	// holds several series) reads, for every series but its first, neither the out-of-order file / out-of-order memtable rows
+	// nor - if the first series had no file in the time range - any file: the expression over several series is wrong, the
+	// same expression restricted to any single series (matchers added to its selectors) is right
+	_, isSel := blamed.(*parser.VectorSelector)
+	_, isAgg := blamed.(*parser.AggregateExpr)
+	if (isSel || isAgg) && bt != 0 && (r.layout == c18LayLate || r.layout == c18LayLateMem) {
+		txt := blamed.String()
 		wrong := func() bool {
-			g := ans(r.srv, r.db, vs.String())
-			c, _ := c18Diff(up(vs.String()), g)
+			g := ans(r.srv, r.db, txt)
+			c, _ := c18Diff(up(txt), g)
 			return c != "" && g.Err == ""
 		}
 		if !wrong() && mode == "range_vs_instants" {
 			ranged = false // the range answer is right, the instant answer at bt is not
 		}
 		alone, n := wrong(), 0
+		seen := map[string]bool{}
 		for _, sr := range r.set.Series {
-			if sr.Labels["__name__"] != vs.Name {
+			lk := sr.Labels["job"] + "/" + sr.Labels["instance"]
+			if seen[lk] {
 				continue
 			}
-			one := *vs
-			one.LabelMatchers = append([]*labels.Matcher{}, vs.LabelMatchers...)
-			for _, l := range []string{"job", "instance"} {
-				one.LabelMatchers = append(one.LabelMatchers, labels.MustNewMatcher(labels.MatchEqual, l, sr.Labels[l]))
+			seen[lk] = true
+			one, err := parser.ParseExpr(txt)
+			if err != nil {
+				return ""
 			}
+			parser.Inspect(one, func(nd parser.Node, _ []parser.Node) error {
+				if vs, ok := nd.(*parser.VectorSelector); ok {
+					for _, l := range []string{"job", "instance"} {
+						vs.LabelMatchers = append(vs.LabelMatchers, labels.MustNewMatcher(labels.MatchEqual, l, sr.Labels[l]))
+					}
+				}
+				return nil
+			})
 			w := up(one.String())
-			if w.empty() {
+			if w.Err != "" || w.empty() {
 				continue
 			}
 			n++
